@@ -31,12 +31,19 @@ func TestC18(t *testing.T) {
 				k := rapid.IntRange(1, 4).Draw(rt, "nnames")
 				var names []string
 				for j := 0; j < k; j++ {
-					names = append(names, rapid.SampledFrom(c18OptNames).Draw(rt, "optname"))
+					nm := rapid.SampledFrom(c18OptNames).Draw(rt, "optname")
+					dup := false
+					for _, x := range names {
+						dup = dup || x == nm
+					}
+					if !dup { // one option listing the same name twice is not "two options that share a name": not generated
+						names = append(names, nm)
+					}
 				}
-				if k >= 3 {
+				if len(names) >= 3 {
 					manyNames = true
 				}
-				d.Name = strings.Join(names, rapid.SampledFrom([]string{" ", "  ", "\t"}).Draw(rt, "namesep"))
+				d.Name = strings.Join(names, rapid.SampledFrom([]string{" ", "  "}).Draw(rt, "namesep")) // documented: space separated
 			}
 			c.Decls = append(c.Decls, d)
 		}
